@@ -1,6 +1,16 @@
 """C01 — TFIM sampler and the quantum thermal state (partial by nature; see QmcProps/C01.lean)."""
-LEAN_TARGETS = ["QmcProps.C01", "drv_c01"]
-BINS = ["c01"]
+LEAN_TARGETS = ["QmcProps.C01", "drv_c01", "QmcProps.C08", "drv_c08", "QmcProps.C09", "drv_c09"]
+BINS = ["c01", "c08", "c09"]
+
+# Theorems of other properties that C01's claim rests on (kernel invariance of the SSE weight): they are
+# audited here too, and their correspondence modes are re-run, so that a change to the diagonal or cluster
+# update that breaks stationarity is reported against C01 as well.
+KERNEL_THEOREMS = [
+    "Qmc.C08.metropolis_ratio", "Qmc.C08.weight_step", "Qmc.C08.detailed_balance_M", "Qmc.C08.sweep_uses_current_n",
+    "Qmc.C08.offdiag_never_altered_M", "Qmc.C08.zero_weight_never_inserted_M",
+    "Qmc.C09.clusterMove_weight_ising", "Qmc.C09.clusterMove_symm", "Qmc.C09.clusterMove_consistent",
+    "Qmc.C09.clusterFlips_half", "Qmc.C09.clusterFlips_weight0",
+]
 
 THEOREMS = [
     "bond_matrices_sum_diag",
@@ -25,10 +35,20 @@ RULE = ("ham: random graphs 2..6 spins, 1..8 edges (multi-edges, both signs, une
 def main(ck):
     if ck.lake_build(LEAN_TARGETS):
         ck.audit("QmcProps.C01", ["Qmc.C01." + t for t in THEOREMS])
+        ck.prop_audit_extra = True
+        save = ck.prop
+        ck.prop = save + "k"          # separate .audit file
+        ck.audit("QmcProps.C09", [t for t in KERNEL_THEOREMS if t.startswith("Qmc.C09")])
+        ck.audit("QmcProps.C08", [t for t in KERNEL_THEOREMS if t.startswith("Qmc.C08")])
+        ck.prop = save
     if ck.cargo_build(BINS):
         for mode in ["ham", "energy", "refresh", "pipeline"]:
             cases = ck.harness("c01", [mode])
             ck.correspond(mode, "drv_c01", cases)
+        # the kernels C01 composes (same harness modes as C08 / C09)
+        ck.correspond("diagonal-sweep-trajectory", "drv_c08", ck.harness("c08", ["traj"]))
+        ck.correspond("diagonal-slot-probabilities", "drv_c08", ck.harness("c08", ["prob"]))
+        ck.correspond("cluster-equilibrium-strings", "drv_c09", ck.harness("c09", ["equilibrium"]))
     ck.notes.append("Kernel invariance of the SSE weight is decided by C08 (slot ratio + weight_step) and C09 (cluster move "
                     "weight-preserving, symmetric); ergodicity and L -> infinity are not theorems.")
     return ck.finish(RULE)
